@@ -849,7 +849,9 @@ class SigmaRegularExpression(SigmaType):
         Replace all occurrences of string part matching regular expression with placeholder.
         """
         return [
-            SigmaRegularExpression(str(sigmastr), self.flags)
+            SigmaRegularExpression(
+                sigmastr if sigmastr.contains_placeholder() else str(sigmastr), self.flags
+            )
             for sigmastr in self.regexp.replace_placeholders(callback)
         ]
 
